@@ -18,7 +18,8 @@ s=open(p).read()
 n=len(re.findall(old,s))
 if n!=1:
     print("pattern matched %d times (need 1)"%n); sys.exit(1)
-open(p,'w').write(re.sub(old,new.replace('\\','\\\\'),s,count=1))
+new2=new.encode().decode('unicode_escape')
+open(p,'w').write(re.sub(old,lambda m:new2,s,count=1))
 PY
 fi
 (cd $S && GOFLAGS=-mod=mod GOPROXY=off GOSUMDB=off GOTOOLCHAIN=local go1.26.8 build ./... ) || { echo "MUTANT DOES NOT COMPILE"; rm -rf $S; exit 3; }
